@@ -1,6 +1,7 @@
 (** C20 — Command history is saved once, in order, and reloads as saved.
     Only pinned statements, [exact], and [Print Assumptions]. *)
-From BV Require Import Base.Prelude Base.Decimal Hist.Model Hist.Spec Hist.Proofs.
+From Coq Require Import Sorting.Sorted.
+From BV Require Import Base.Prelude Base.Decimal Hist.Model Hist.Spec Hist.Proofs Hist.Once.
 
 (** For every op sequence (any number of sessions on one file) whose recorded commands do not
     start with '#' after trimming, the model behaves as the abstract specification in
@@ -44,3 +45,20 @@ Print Assumptions c20_decimal_roundtrip.
 Theorem c20_nonvacuous : WF (init_world [[111;108;100]%N; HASH :: [49;50]%N; [99]%N]) /\ Forall op_ok ex_ops.
 Proof. exact ex_wf. Qed.
 Print Assumptions c20_nonvacuous.
+
+(** Exactly once, in recording order, nothing lost: on the abstract machine instrumented with ghost
+    tags (session, serial) — which erase to the machine of Hist/Spec.v — after ANY op sequence from
+    ANY initial file: no tag occurs twice in the file, per session the serials in the file increase,
+    every recorded command whose unsaved flag is clear is in the file, and none with the flag set is. *)
+Theorem c20_tags_are_ghost : forall ops w, terase (trun w ops) = arun (terase w) ops.
+Proof. exact trun_erase. Qed.
+Print Assumptions c20_tags_are_ghost.
+
+Theorem c20_saved_exactly_once_in_order : forall f ops,
+  let w := trun (tinit f) ops in
+  NoDup (file_tags w) /\
+  (forall k, StronglySorted lt (serials_of k (file_tags w))) /\
+  (forall k l t a, nth_error (tsess w) k = Some l -> In (Some t, (a, false)) l -> In t (file_tags w)) /\
+  (forall k l t a, nth_error (tsess w) k = Some l -> In (Some t, (a, true)) l -> ~ In t (file_tags w)).
+Proof. exact saved_exactly_once_in_order. Qed.
+Print Assumptions c20_saved_exactly_once_in_order.
